@@ -129,8 +129,12 @@ def metamorphic(ctx, tools, programs, n_edits):
             continue
         if kind in ("rename", "rename_rev"):
             # names differ: compare acceptance and non-debug SPIR-V only
-            a2 = (a[0], a[1] if len(a) > 1 else None)
-            b2 = (b[0], b[1] if len(b) > 1 else None)
+            # (a back-end error message may quote a user name: only the fact that SPIR-V generation failed is compared)
+            def spv_obs(o):
+                x = o[1] if len(o) > 1 else None
+                return "ERR" if isinstance(x, str) and x.startswith("ERR:") else x
+            a2 = (a[0], spv_obs(a))
+            b2 = (b[0], spv_obs(b))
             ok = a2 == b2
         else:
             ok = a == b
